@@ -96,7 +96,7 @@ def Loaded.all (p : Tree → Bool) : Loaded → Bool
   | .tree t => p t
   | _ => true
 
-/-- A syntactic condition under which finding `iterator_enabled_expr` cannot strike: every
+/-- A syntactic condition under which (former) finding `iterator_enabled_expr` cannot strike, whatever the configuration: every
     iterator's template is one role whose `enabled` is plain text (no `{{ }}`). -/
 def iterEnabledLiteral : Tmpl → Bool
   | .nil => true
@@ -159,7 +159,8 @@ def nestCtxs (ctx : Ctx) : List Level → List Ctx
       | .ok _ c' _ => nestCtxs c' ls
       | _ => []
 
-/-- every level's aggregator carries a plain truthy `enabled` (else finding iterator_enabled_expr strikes) -/
+/-- every level's aggregator carries a plain truthy `enabled` (needed for the legacy configuration
+    only: else former finding iterator_enabled_expr strikes) -/
 def nestEnabled (ls : List Level) : Bool := ls.all fun l => truthy (rawText l.hdr.enabled)
 
 end Load
